@@ -8,6 +8,7 @@ EdzedProps/C03.lean (`namespace Edzed.TrTie`) restate them.
 import EdzedModel.Fsm
 import EdzedProofs.Fsm
 import EdzedModel.Gen.TranslatedFsmTables
+import EdzedProofs.FsmTie03
 
 namespace Edzed.TrTie.FT
 open Edzed.Fsm Edzed.Gen.TrFT
@@ -755,5 +756,68 @@ theorem buildTables_spec (p : Prims δ Du κ α ε χ η) (zero : δ → Bool) (
           · rw [hEt, hDTe, hCTe]
           · rw [hEV, hDV, hCV, hEe, hDe, hEs, hDs, hC1, hEM, hDM, hCM]
           · rw [hEP, hDP, hCP]
+
+/-! ### `_run_cb` and the model's order of callbacks -/
+
+/-- the calls `_run_cb` adds: the instance callback (if any), then the class method (if any) -/
+theorem runCb_calls (p : Prims δ Du κ α ε χ η) (kind name : String) (o : Obj δ Du κ α ε χ)
+    (F : List (String × κ)) (Mt : List (String × α))
+    (hF : o.fsmFunctions.lookup kind = some F) (hM : o.ctMethods.lookup kind = some Mt) :
+    (runCb p kind name o).1.calls =
+      o.calls ++ ((F.lookup name).map Call.func).toList ++ ((Mt.lookup name).map Call.meth).toList := by
+  rw [runCb_spec p kind name o F Mt hF hM]
+  cases F.lookup name <;> cases Mt.lookup name <;> simp
+
+/-- conditions as the model scripts them: an instance whose `cond` callbacks are the model's `condF` / `condM`
+    and whose callbacks return what the script says for the event data in the context variable -/
+theorem runCb_cond_model (d : Def) (p : Prims δ Du CondS CondS ε χ η) (e : String)
+    (o : Obj δ Du CondS CondS ε χ)
+    (hF : o.fsmFunctions.lookup "cond" = some d.condF) (hM : o.ctMethods.lookup "cond" = some d.condM)
+    (hfr : ∀ c (o' : Obj δ Du CondS CondS ε χ), p.funcResult c o' = c.eval o'.ctxVar)
+    (hmr : ∀ c (o' : Obj δ Du CondS CondS ε χ), p.methResult c o' = c.eval o'.ctxVar) :
+    (runCb p "cond" e o).2 = .ret ((condsOf d e).map fun c => c.2.eval o.ctxVar) ∧
+    (runCb p "cond" e o).1.calls = o.calls ++ (condsOf d e).map (fun c =>
+      match c.1 with
+      | .func => Call.func c.2
+      | .meth => Call.meth c.2) := by
+  rw [runCb_spec p "cond" e o d.condF d.condM hF hM]
+  unfold condsOf
+  cases hf : d.condF.lookup e <;> cases hm : d.condM.lookup e <;> simp [hfr, hmr]
+
+/-! ### `_event` on the block of the `_ctx_event` tie -/
+
+open F03 in
+/-- the block of the `_ctx_event` tie (EdzedProofs/FsmTie03.lean) inside the object of this file -/
+def tsOf (o : Obj δ Du κ α ε (Option Req × List Action × Bool)) : TS :=
+  { f := { state := o.state, output := o.output, active := o.fsmEventActive, next := o.ext.1 },
+    ctx := o.ctxVar, log := o.ext.2.1, enabled := o.ext.2.2 }
+
+open F03 in
+def objOf (t : TS) (base : Obj δ Du κ α ε (Option Req × List Action × Bool)) :
+    Obj δ Du κ α ε (Option Req × List Action × Bool) :=
+  { base with ext := (t.f.next, t.log, t.enabled), state := t.f.state, output := t.f.output,
+              fsmEventActive := t.f.active, ctxVar := t.ctx }
+
+open F03 in
+theorem tsOf_objOf (t : TS) (base : Obj δ Du κ α ε (Option Req × List Action × Bool)) :
+    tsOf (objOf t base) = t := rfl
+
+open F03 in
+def excName : Exc → String
+  | .unknownEvent => "EdzedUnknownEvent"
+  | .circuitError => "EdzedCircuitError"
+  | .valueError => "ValueError"
+  | .assertion => "AssertionError"
+  | .other => "Exception"
+
+open F03 in
+/-- `self._ctx_event` = the method translated by tools/py2lean_fsm.py, on the primitives of the C03 model -/
+def ctxEventObj (d : Def) (e : EType) (data : Data) (o : Obj δ Du κ α ε (Option Req × List Action × Bool)) :
+    Obj δ Du κ α ε (Option Req × List Action × Bool) × Except PyExc Bool :=
+  (objOf (Gen.TrM.ctxEvent (F03.prims d) e data (tsOf o)).1 o,
+   match (Gen.TrM.ctxEvent (F03.prims d) e data (tsOf o)).2 with
+   | .ret b => .ok b
+   | .raise x => .error (excName x)
+   | _ => .error "?")
 
 end Edzed.TrTie.FT
